@@ -293,8 +293,25 @@ pub fn norm_state(r: &Runner) -> Value {
                 (k.clone(), json!([v.0, v.1, v.2]))
             }).collect::<BTreeMap<_, _>>(),
             "publishers": publishers,
+            "served": served_shape(r),
         })
     })
+}
+
+/// What the repository content log holds per publisher (the statistics
+/// view, `GET stats/repo`): whether a publisher has content at all.
+/// Content that stays behind for a publisher that is gone from the access
+/// records shows here and in no other API view.
+fn served_shape(r: &Runner) -> Value {
+    let rt = r.world.inst(0).rt();
+    let Ok(stats) = rt.repo_manager().repo_stats() else {
+        return Value::Null
+    };
+    let mut shape: BTreeMap<String, bool> = BTreeMap::new();
+    for (publisher, stats) in stats.publishers.iter() {
+        shape.insert(publisher.to_string(), stats.objects > 0);
+    }
+    json!(shape)
 }
 
 /// Checks right after a cut (and the restart, if it was a crash).
@@ -1223,7 +1240,7 @@ pub fn run_pair_only(
                     // CA is dropped: a failing write in that part is
                     // ignored by design.
                     let best_effort = matches!(target, Op::DeleteCa { .. })
-                        && *variant == "fail"
+                        && (*variant == "fail" || *variant == "full")
                         && twin.sites.iter().position(|s| {
                             s.contains(":delete_scope:")
                         }).map(|p| (k as usize) <= p).unwrap_or(false);
@@ -1233,7 +1250,7 @@ pub fn run_pair_only(
                     // parent are removed.
                     let best_effort_parent = match &target {
                         Op::RemoveParent { name, .. } => {
-                            *variant == "fail"
+                            (*variant == "fail" || *variant == "full")
                                 && twin.sites.iter().position(|s| {
                                     s.contains(&format!(
                                         ":delete:{name}:parents-"
